@@ -213,6 +213,9 @@ PARSE_ERRORS = {
     "vft_ret": "pub type T {\n  vftable {\n    fn f(&self) -> \u27e6;\n  },\n  c: u32,\n}\n",
     "attr_arg": "pub type Q { x: u32 }\n#[size(\u27e6=)]\npub type T { x: u32 }\n",
     "array_len": "pub type T {\n  a: [u32; \u27e6x],\n  c: u32,\n}\n",
+    # the offending token is the very first one of the file
+    "first_token": "\u27e6struct X {\n}\npub type A { x: u32 }\n",
+    "second_line_start": "pub type A { x: u32 }\n\u27e6typo B { x: u32 }\npub type C { x: u32 }\n",
 }
 
 
@@ -240,6 +243,9 @@ def check_parse_positions(pl):
             out.append(f"the parse error ({kind}) does not identify file, line and column (expected sub/bad.pyxis:{line}:<col>): {msg[:300]}")
         elif int(m.group(1)) != line:
             out.append(f"the parse error ({kind}) is reported at line {m.group(1)}, the offending token is on line {line}: {msg[:300]}")
+        elif int(m.group(2)) != pos - (text.rfind("\n", 0, pos) + 1) + 1:
+            out.append(f"the parse error ({kind}) is reported at column {m.group(2)}, the offending token starts at column "
+                       f"{pos - (text.rfind(chr(10), 0, pos) + 1) + 1} of line {line}: {msg[:300]}")
     return out
 
 
